@@ -369,7 +369,7 @@ def run_pulse(dev, rng, nevents, out):
 
 
 def shards(tier, seed):
-    n = 320 if tier == "quick" else 4000
+    n = 320 if tier == "quick" else 16000
     specs = [{"kind": "sample", "seed": seed, "shard": i, "schedules": n // NSHARDS, "events": 200} for i in range(NSHARDS)]
     L = 7 if tier == "quick" else 9
     for dev in ("ff2", "ff3", "aff2p", "aff2n", "aff3p", "rs2", "rs3", "rs2a"):
